@@ -1,8 +1,9 @@
-From Gv Require Import lib.Bytes lib.Gql C15.Unicode C15.Model C15.Spec C15.Diag.
+From Gv Require Import lib.Bytes lib.Gql C15.Unicode C15.Model C15.Spec C15.Diag C15.Defaults.
 From Coq Require Import ZArith.
 Require Import ExtrOcamlBasic.
 Extraction Language OCaml.
 Extraction "model.ml" value_to_json block_start block_end go_block_lexable default_extract forward_d
   json_denote_gen json_denote json_valid_b gql_denote lit_valid_b dval_eqb value_preserved_b json_same_value_b
   json_member no_brace_escape rescan_exact utf8_ok block_string_value
-  go_safe_b default_denote spec_block_delimited is_dnull.
+  go_safe_b default_denote spec_block_delimited is_dnull
+  spec_defaults dval_incl dval_sim supplied_preserved_b defaults_complete_b.
